@@ -81,12 +81,12 @@ theorem harr_putstrf_fault (img : Img) (hw : WF img) (plan : Plan) (name str md5
 
 /-- a constructor whose handle cannot be allocated returns NULL with nothing left allocated; with
     `memsize > 0` the region then holds the freshly initialised, well-formed empty table -/
-theorem harr_ctor_fault (plan : Plan) (memsize : Nat) :
+theorem harr_ctor_fault (plan : Plan) (memsize : Nat) (hsz : memsize < 2 ^ 31 * Qlibc.Generated.HarrLayout.sizeofSlot) :
     ((newF plan memsize).2.1 = .einval ∧ (newF plan memsize).1 = none ∧ (newF plan memsize).2.2 = []) ∨
     (∃ img, (newF plan memsize).1 = some img ∧ WF img ∧
       (((newF plan memsize).2.1 = .enomem ∧ plan 1 = true ∧ balance (newF plan memsize).2.2 = 0) ∨
        ((newF plan memsize).2.1 = .ok ∧ balance (newF plan memsize).2.2 = 1))) :=
-  newF_spec plan memsize
+  newF_spec plan memsize hsz
 
 /-- … and attaching to an existing image (`memsize = 0`) either fails with nothing allocated or
     yields one block, the handle; the image is not an argument of the allocation at all -/
